@@ -15,7 +15,7 @@ if "--tier" in sys.argv:
     tier = sys.argv[sys.argv.index("--tier") + 1]
 tmp = tempfile.mkdtemp(prefix="vfseed_")
 try:
-    subprocess.run(["rsync", "-a", "--exclude", ".git", "--exclude", "__pycache__", "--exclude", "docs", "/repo/", tmp + "/"], check=True)
+    subprocess.run(["rsync", "-a", "--exclude", "__pycache__", "--exclude", ".hypothesis", "--exclude", ".git", "--exclude", "docs", "/repo/", tmp + "/"], check=False)
     r = subprocess.run(["patch", "-p1", "-s", "-d", tmp, "-i", os.path.join(d, "patch.diff")], capture_output=True, text=True)
     if r.returncode != 0:
         print("PATCH FAILED", r.stdout, r.stderr)
